@@ -1,5 +1,6 @@
 import LhasaV.Model.Safe
 import LhasaV.Lemmas.ListProps
+import LhasaV.Lemmas.MessagesProps
 /-!
 # C18 — archive-derived text printed by the tool is printable ASCII only
 -/
@@ -35,5 +36,26 @@ theorem print_banners_printable (archive : Array UInt8) (o : Extract.Opts) :
       ListProps.SegmentsOk o segs ∧
       ∀ p ∈ segs, ∀ b ∈ p.1, (0x20 ≤ b ∧ b ≤ 0x7e) ∨ b = 0x0a :=
   ListProps.print_banners_printable archive o
+
+/-! ## test and extract modes (`Model/Messages.lean`: every `printf` of `src/extract.c` and of the progress bar) -/
+
+/-- **`lha t`**: every byte of the standard output of `lha t[options] archive [patterns]` — progress
+bars, `Tested` / `CRC error` lines, `VERIFY name` — is printable ASCII or `\n`, `\r`, `\t`,
+whatever bytes the archive's names contain, for EVERY archive. -/
+theorem test_output_printable (archive : Array UInt8) (o : Extract.Opts) :
+    ∀ b ∈ (Messages.runTest archive o).1, Safe.printable b ∨ b = 0x0a ∨ b = 0x0d ∨ b = 0x09 :=
+  MessagesProps.test_output_printable archive o
+
+/-- **`lha x` / `lha e`** (and the dry run `xn`), for every archive, options, initial file system
+and prompt answers: `Melted` / `Failure` / `Skipped` lines, `Symbolic Link a -> b`, bars. -/
+theorem extract_output_printable (archive : Array UInt8) (o : Extract.Opts) (fs : Fs.St) (answers : Bytes) :
+    ∀ b ∈ (Messages.runExtract archive o fs answers).1, Safe.printable b ∨ b = 0x0a ∨ b = 0x0d ∨ b = 0x09 :=
+  MessagesProps.extract_output_printable archive o fs answers
+
+/-- standard error of both modes (overwrite prompts, parent-directory and file-type messages) -/
+theorem stderr_printable (cmd : Messages.Cmd) (archive : Array UInt8) (o : Extract.Opts) (fs : Fs.St)
+    (answers : Bytes) :
+    ∀ b ∈ (Messages.run cmd archive o fs answers).stderr, Safe.printable b ∨ b = 0x0a ∨ b = 0x0d ∨ b = 0x09 :=
+  MessagesProps.stderr_printable cmd archive o fs answers
 
 end LhasaV.Props.C18
